@@ -150,6 +150,16 @@ func (env *Env) eval(x ast.Expr) (Val, error) {
 				return out, nil
 			}
 		}
+		// ghost array with a view for the (statically or dynamically known) type of the index object
+		if id, ok := n.X.(*ast.Ident); ok {
+			if _, isGhost := fx.e.ghosts[id.Name]; isGhost {
+				if v, ok, err := env.viewOf(id.Name, i); err != nil {
+					return Val{}, err
+				} else if ok {
+					return v, nil
+				}
+			}
+		}
 		// ghost / spec array
 		return specVal(sSel(a.one(), env.idxTerm(i))), nil
 	case *ast.CallExpr:
@@ -795,7 +805,7 @@ func (env *Env) call(n *ast.CallExpr) (Val, error) {
 		names := fx.mapHeapNames(m.T)
 		dom := fx.heapVar(env.heap, names[0], "")
 		return Val{T: bt, L: []string{sSel(sSel(dom, m.one()), fx.mapKeyTerm(mt.Key(), k))}}, nil
-	case "str_contains", "str_concat", "str_upper", "str_lower", "str_lt":
+	case "str_contains", "str_concat", "str_upper", "str_lower", "str_lt", "str_sub", "str_at":
 		var as []string
 		for i := range n.Args {
 			a, err := arg(i)
@@ -807,6 +817,9 @@ func (env *Env) call(n *ast.CallExpr) (Val, error) {
 		var t types.Type = types.Typ[types.String]
 		if fname == "str_contains" || fname == "str_lt" {
 			t = bt
+		}
+		if fname == "str_at" {
+			t = types.Typ[types.Int]
 		}
 		return Val{T: t, L: []string{app(fname, as...)}}, nil
 	case "constmethod":
@@ -1080,4 +1093,64 @@ func (fx *FnExec) constMethodTerm(x Val, method string) (string, types.Type, str
 		known = append(known, sEq(x.L[0], intLit(int64(alts[i].id))))
 	}
 	return term, rt, sOr(known...), nil
+}
+
+// viewOf: ghost[obj] for an object whose concrete type has a `view` declaration
+func (env *Env) viewOf(ghost string, obj Val) (Val, bool, error) {
+	fx := env.fx
+	if obj.T == nil || len(fx.e.cs.Views) == 0 {
+		return Val{}, false, nil
+	}
+	var concrete types.Type
+	var ptr string
+	if isPointer(obj.T) && obj.Loc == nil {
+		concrete = obj.T
+		ptr = obj.L[0]
+	} else if isInterface(obj.T) && len(obj.L) == 2 {
+		// dynamic type known as a literal?
+		for _, id := range fx.e.tt.sortedIds() {
+			if obj.L[0] == intLit(int64(id)) {
+				concrete = fx.e.tt.types[id-1]
+				ptr = obj.L[1]
+			}
+		}
+	}
+	if concrete == nil {
+		return Val{}, false, nil
+	}
+	var nt *types.Named
+	selfV := Val{T: concrete, L: []string{ptr}}
+	if isPointer(concrete) {
+		n, ok := unalias(elemOf(concrete)).(*types.Named)
+		if !ok {
+			return Val{}, false, nil
+		}
+		nt = n
+	} else {
+		n, ok := unalias(concrete).(*types.Named)
+		if !ok {
+			return Val{}, false, nil
+		}
+		nt = n
+		selfV = fx.unbox(ptr, concrete)
+	}
+	if nt.Obj().Pkg() == nil {
+		return Val{}, false, nil
+	}
+	for _, vd := range fx.e.cs.Views {
+		if vd.Ghost != ghost || vd.Type != nt.Origin().Obj().Name() || vd.PkgPath != nt.Obj().Pkg().Path() {
+			continue
+		}
+		ex, err := parseSpecExpr(vd.Text)
+		if err != nil {
+			return Val{}, false, fmt.Errorf("%s:%d: %v", vd.File, vd.Line, err)
+		}
+		ne := &Env{fx: fx, names: map[string]Val{"self": selfV}, heap: env.heap, old: env.old, pkg: nt.Obj().Pkg(), bound: env.bound}
+		v, err := ne.eval(ex)
+		if err != nil {
+			return Val{}, false, fmt.Errorf("%s:%d: %v", vd.File, vd.Line, err)
+		}
+		return v, true, nil
+	}
+	return Val{}, false, nil
 }
